@@ -5,9 +5,10 @@ import pktgen
 SLICE = "RT C and RT P (compressed / plain serialisation then Packet::parse), exact bytes compared with the model"
 RULE = ("seeded packets with heavy suffix sharing between owner, question and RDATA names (names extending a pool of shared "
         "suffixes, names differing only in a leading label) + messages padded to straddle offset 16384 where a name first "
-        "appears beyond 16383 and is reused. Each description runs compressed and plain. non-trivial = both parse; "
+        "appears beyond 16383 and is reused; a boundary catalogue placing a multi-label name at every offset 16384-k (k=0..25) "
+        "with later names sharing only its tail; pointer chains of depth 3..90. Each description runs compressed and plain. non-trivial = both parse; "
         "distinct = distinct canonical outputs")
-CASE_TIMEOUT = 300
+CASE_TIMEOUT = 600
 DESCS = {}
 PLAIN = {}
 
@@ -16,6 +17,8 @@ def cases(rng, tier):
     n = 2500 if tier == "quick" else 25000
     out = []
     ps = pktgen.packets(rng, n) + pktgen.big_packets(rng, 6 if tier == "quick" else 40)
+    ps += pktgen.straddle_packets(rng, range(0, 26) if tier == "quick" else range(0, 80))
+    ps += pktgen.chain_packets(rng)
     if tier == "thorough":
         ps += pktgen.big_packets(rng, 6, target=60000)
     for p in ps:
